@@ -273,6 +273,31 @@ func newRawRowReader(tx *SQLTx, params map[string]interface{}, table *Table, per
 	}, nil
 }
 
+// clampRangeBound makes a range bound encodable as a key of the column: a VARCHAR/BLOB constant
+// longer than the column is cut to the column's length. No stored value can be longer than the
+// column, and byte-wise comparison against the constant and against its cut give the same side for
+// every such value (v <= c implies v <= cut(c), v >= c implies v > cut(c)), so the scan still
+// covers every row the condition can select; the condition itself is evaluated on the rows
+// afterwards, as it is when no index is used.
+func clampRangeBound(val TypedValue, col *Column) TypedValue {
+	if val == nil || val.IsNull() || col.MaxLen() <= 0 {
+		return val
+	}
+
+	switch col.colType {
+	case VarcharType:
+		if s, ok := val.RawValue().(string); ok && len(s) > col.MaxLen() {
+			return &Varchar{val: s[:col.MaxLen()]}
+		}
+	case BLOBType:
+		if b, ok := val.RawValue().([]byte); ok && len(b) > col.MaxLen() {
+			return &Blob{val: b[:col.MaxLen()]}
+		}
+	}
+
+	return val
+}
+
 func keyReaderSpecFrom(sqlPrefix []byte, table *Table, scanSpecs *ScanSpecs) (spec *store.KeyReaderSpec, err error) {
 	prefix := MapKey(sqlPrefix, MappedPrefix, EncodeID(table.id), EncodeID(scanSpecs.Index.id))
 
@@ -301,7 +326,7 @@ func keyReaderSpecFrom(sqlPrefix []byte, table *Table, scanSpecs *ScanSpecs) (sp
 			if colRange.hRange == nil {
 				hiKeyReady = true
 			} else {
-				encVal, _, err := EncodeValueAsKey(colRange.hRange.val, col.colType, col.MaxLen())
+				encVal, _, err := EncodeValueAsKey(clampRangeBound(colRange.hRange.val, col), col.colType, col.MaxLen())
 				if err != nil {
 					return nil, err
 				}
@@ -313,7 +338,7 @@ func keyReaderSpecFrom(sqlPrefix []byte, table *Table, scanSpecs *ScanSpecs) (sp
 			if colRange.lRange == nil {
 				loKeyReady = true
 			} else {
-				encVal, _, err := EncodeValueAsKey(colRange.lRange.val, col.colType, col.MaxLen())
+				encVal, _, err := EncodeValueAsKey(clampRangeBound(colRange.lRange.val, col), col.colType, col.MaxLen())
 				if err != nil {
 					return nil, err
 				}
